@@ -268,9 +268,10 @@ SRCF_STRATEGY_FUNCS = [
     (None, "int_to_bits", {"int_val": "int", "dialect": "optedialect", "word_sep": "optstr"}),
     (None, "valid_bin", {"bin_val": "str", "dialect": "optedialect"}), (None, "int_to_bin", {"int_val": "int"}),
     (None, "bin_to_int", {"bin_val": "str"}), (None, "int_to_str", {"int_val": "int", "dialect": "optedialect"})]
-SRCF_STRATEGY_FUNCS48 = [(None, "valid_str", {"addr": "str"}), (None, "str_to_int", {"addr": "str"})]
+SRCF_STRATEGY_FUNCS48 = [(None, "valid_str", {"addr": "str"}), (None, "str_to_int", {"addr": "str"}), (None, "str_to_int:int", {"addr": "int"})]
 SRCF_STRATEGY_FUNCS64 = [(None, "_get_match_result", {"address": "str", "formats": "list pat"}),
-                         (None, "valid_str", {"addr": "str"}), (None, "str_to_int", {"addr": "str"})]
+                         (None, "valid_str", {"addr": "str"}), (None, "str_to_int", {"addr": "str"}),
+                         (None, "_get_match_result:int", {"address": "int", "formats": "list pat"}), (None, "str_to_int:int", {"addr": "int"})]
 # the compiled regular expressions: module-level list -> the hand-compiled matchers of Model/Eui.v (Proofs/GenOk_C08.v proves that
 # the regenerated pattern strings of the source are the renderings of exactly these matchers, in order, flags IGNORECASE|UNICODE)
 SRCF_TABLES = {"eui48_": {"RE_MAC_FORMATS": "mac_pats"}, "eui64_": {"RE_EUI64_FORMATS": "eui64_pats"}}
@@ -286,6 +287,8 @@ SRCF_UNITS = [
         ("EUI", "_validate_dialect", {"value": "darg"}), ("EUI", "_set_dialect", {"value": "darg"}),
         ("EUI", "dialect", {"self._dialect": "edialect"}), ("EUI", "format", {"dialect": "darg"}),
         ("EUI", "__str__", {"self._dialect": "edialect"}), ("EUI", "__getstate__", {"self._dialect": "edialect"}),
+    ] + [("EUI", "_set_value:%s_%s" % (m, t), {"value": t, "self.*": "state"}) for m in ("implicit", "eui48", "eui64") for t in ("str", "int")] + [
+        ("EUI", "__init__:%s" % t, {"addr": t, "version": "optint", "dialect": "darg", "self.*": "state"}) for t in ("int", "str", "eui")] + [
     ]),
 ]
 UNITS += SRCF_UNITS
@@ -2031,6 +2034,7 @@ class FnF(Fn):
 
     def unit_init(self, env):
         self.dialect_param = False
+        self.init_fullstate(env)
         if self.recv is None and self.tr.prefix in ("eui48_", "eui64_"):
             # the module's own constants width / version / max_int: the regenerated constants of Gen/pysrc_eui_gen.v
             for c in ("width", "version", "max_int"):
@@ -2060,6 +2064,8 @@ class FnF(Fn):
     def coerce(self, node, ty, t, pty):
         if ty == "none" and isinstance(pty, str) and pty.startswith("opt"):
             return (pty, "None")
+        if pty == "darg" and ty in ("none", "edialect"):
+            return (pty, "DNone" if ty == "none" else "(DRec %s)" % t)
         if ty == "edialect" and pty == "optdialect":
             return (pty, "(Some (d_pair %s))" % t)
         if isinstance(pty, str) and self.OPT.get(pty) == ty:
@@ -2115,7 +2121,20 @@ class FnF(Fn):
                 bad(node, "call of %s, which reads the dialect, on a receiver whose dialect is not known" % d.cname)
         return Fn.generated(self, node, recv, name, state, args)
 
+    def variant_for(self, specs_of, name, node, env):
+        """`name`, or its specialisation `name:<type of the first argument>` when the unit lists one"""
+        if node.args and not isinstance(node.args[0], ast.Starred):
+            snap, pre0 = self.snapshot(), list(self.pre)
+            ty = self.rhs(node.args[0], env)
+            ty = ty[1] if ty[0] == "out" else ty[0]
+            self.restore(snap)
+            self.pre = pre0
+            if isinstance(ty, str) and any(k[0] is None and k[1] == "%s:%s" % (name, ty) for t in specs_of for k in t.specs):
+                return "%s:%s" % (name, ty)
+        return name
+
     def callfn(self, node, name, env):
+        name = self.variant_for([self.tr], name, node, env) if self.tr.owner_of(name) and self.tr.owner_of(name)[0] is self.tr else name
         d = self.tr.get(None, name, node)
         args = self.bind_args(node, d, env)
         if d.optional and is_list(d.kind) and d.kind[1].find().t == "str" and not d.mutating:
@@ -2138,6 +2157,11 @@ class FnF(Fn):
     def finish(self):
         """Fn.finish, also for a function that returns from inside a loop and None at its end"""
         rets = [l for l in self.leaves(self.ir) if l[0] == "ret" and l[1] != "@loop"]
+        if not rets and not self.lrets and any(l[0] == "raise" for l in self.leaves(self.ir)):
+            # every path raises: the result type is the one the unit entry's other specialisation has (an int for str_to_int)
+            self.kind = self.retkind = "int"
+            self.optional, self.outcome, self.type, self.fresh = False, True, "outcome Z", False
+            return
         if self.lrets and any(l[1] == "none" for l in rets) and not self.mutating:
             kinds = [l[1] for l in rets if l[1] != "none"] + self.lrets
             for kd in kinds[1:]:
@@ -2156,6 +2180,12 @@ class FnF(Fn):
             sub = self.render(ir[4], i2, oc, optional) if ir[4][0] in ("ret", "raise", "jret", "lret") else "(" + self.render(ir[4], i2 + " ", oc, optional) + ")"
             return "match %s with\n%s| inl %s => %s\n%s| inr %s =>\n%s%s\n%send" % (
                 ir[1], ind, ir[2], ("Ok (Some %s)" if oc else "(Some %s)") % ir[2], ind, ir[3], i2, sub, ind)
+        if ir[0] == "trybind":
+            i2 = ind + "  "
+            sub = lambda x: self.render(x, i2, True, optional) if x[0] in ("ret", "raise", "jret", "lret") else "(" + self.render(x, i2 + " ", True, optional) + ")"
+            hx = "x_" + ir[1]
+            return "match %s with\n%s| Ok %s =>\n%s%s\n%s| Raise %s =>\n%sif exn_eqb %s %s then\n%s  %s\n%selse\n%s  Raise %s\n%send" % (
+                ir[2], ind, ir[1], i2, sub(ir[3]), ind, hx, i2, hx, ir[4], i2, sub(ir[5]), i2, i2, hx, ind)
         if ir[0] == "let" and ir[2] == "[]" and re.fullmatch(r"\w+", ir[1]):
             body = self.render(ir[3], ind, oc, optional)
             m = re.search(r"\b%s\b" % re.escape(ir[1]), body)
@@ -2165,6 +2195,34 @@ class FnF(Fn):
 
     def block(self, stmts, env, k, after):
         s = stmts[0] if stmts else None
+        if getattr(self, "fullstate", False) and isinstance(s, ast.Expr) and isinstance(s.value, ast.Call):
+            c = s.value
+            if (isinstance(c.func, ast.Attribute) and c.func.attr == "__init__" and isinstance(c.func.value, ast.Call)
+                    and dotted(c.func.value.func) == "super" and "super" not in env and not c.args and not c.keywords
+                    and [dotted(x) for x in c.func.value.args] == [self.owner, "self"] and self.pyname == "__init__"):
+                # super(C, self).__init__(): the body of the base class's __init__ (plain assignments of constants to attributes)
+                bases = [dotted(b) for b in self.mod.classes[self.owner].bases]
+                r = self.mod.lookup(bases[0], "__init__") if len(bases) == 1 else None
+                body = [st for st in (r[1].body if r else []) if not (isinstance(st, ast.Expr) and isinstance(st.value, ast.Constant))]
+                if not r or len(r[1].args.args) != 1 or any(not (isinstance(st, ast.Assign) and len(st.targets) == 1 and dotted(st.targets[0]) in self.STATE_KEYS
+                                                                  and isinstance(st.value, ast.Constant)) for st in body):
+                    bad(s, "super().__init__() of a base class whose __init__ is not a list of constant attribute assignments")
+                return self.block(body + list(stmts[1:]), env, k, after)
+        if getattr(self, "fullstate", False) and isinstance(s, ast.Try) and len(s.handlers) == 1:
+            hb = s.handlers[0].body
+            if len(hb) == 1 and isinstance(hb[0], ast.Pass):
+                return self.try_pass_state(s, list(stmts[1:]), env, k, after)
+            if (len(hb) == 1 and isinstance(hb[0], ast.Raise) and len(s.body) == 1 and isinstance(s.body[0], ast.Assign)
+                    and dotted(s.body[0].targets[0]) == "self._value" and isinstance(s.body[0].value, ast.Call)
+                    and not s.orelse and not s.finalbody and isinstance(s.handlers[0].type, ast.Name) and s.handlers[0].type.id in EXN):
+                # try: self._value = <call> / except E1: raise E2(..)
+                e2 = self.block(hb, {**env, "@break": None}, None, [])[1]
+                r = self.rhs(s.body[0].value, env)
+                if r[0] != "out" or r[1] != "int" or self.pre:
+                    bad(s, "try: self._value = <call> with a call that cannot raise or has arguments that can")
+                h, env2 = self.fresh(), dict(env)
+                env2["self._value"] = ("int", h)
+                return ("bind", h, "(py_except %s %s %s)" % (s.handlers[0].type.id, e2, r[2]), self.block(list(stmts[1:]), env2, k, after))
         if (isinstance(s, ast.Try) and len(s.handlers) == 1 and dotted(s.handlers[0].type) == "TypeError" and "TypeError" not in env
                 and not self.mod.toplevel("TypeError") and not s.orelse and not s.finalbody and len(s.handlers[0].body) == 1
                 and isinstance(s.handlers[0].body[0], ast.Pass)
@@ -2178,6 +2236,30 @@ class FnF(Fn):
             # raise TypeError (the pattern is a compiled expression, the argument is text): the handler is dead code
             return self.block(s.body + list(stmts[1:]), env, k, after)
         return Fn.block(self, stmts, env, k, after)
+
+    def loop(self, s, rest, env, k, after):
+        if (isinstance(s, ast.For) and isinstance(s.iter, ast.Tuple) and s.iter.elts and isinstance(s.target, ast.Name) and not s.orelse
+                and all(isinstance(x, ast.Name) and self.module_of(x, env) for x in s.iter.elts) and getattr(self, "fullstate", False)):
+            # for module in (_eui48, _eui64): unrolled; `break` continues after the loop, the end of the body with the next module
+            mods, x = [self.module_of(m, env) for m in s.iter.elts], s.target.id
+            if any(isinstance(n, ast.Name) and n.id == x for st in rest + after for n in ast.walk(st) if st is not s):
+                pass
+            outer = (env["@break"], env["@continue"])
+
+            def leave(e):
+                e = {key: val for key, val in e.items() if key != x}
+                e["@break"], e["@continue"] = outer
+                return self.block(rest, e, k, after)
+
+            def iteration(i, e):
+                if i == len(mods):
+                    return leave(e)
+                ie = dict(e)
+                ie[x] = ("module", mods[i])
+                ie["@break"], ie["@continue"] = leave, (lambda e2: iteration(i + 1, e2))
+                return self.block(s.body, ie, lambda e2: iteration(i + 1, e2), [s] + rest + after)
+            return iteration(0, env)
+        return Fn.loop(self, s, rest, env, k, after)
 
     def if_cond(self, s, c, rest, env, k, after):
         """the tail of Fn.if_ for an already translated condition"""
@@ -2247,8 +2329,180 @@ class FnF(Fn):
             return srcf_dialect_rec_const(ts[0], real, node)
         return srcf_dialect_rec_const(self.tr, name, node)
 
+    # ---- SRCF: methods that build / replace the whole state of an EUI object (__init__, _set_value, __setstate__) --------------
+    # A unit entry with the pseudo-parameter "self.*" is translated with the object's attributes tracked at translation time:
+    # env["self._module"] = ("none", None) | ("module", (version term, "eui48" | "eui64" | None)), env["self._value"] / ["self._dialect"]
+    # = ("none", None) | (type, term).  Every `if` on them duplicates the continuation, `for module in (_eui48, _eui64)` is unrolled,
+    # so each path knows what is assigned.  The function answers the final state: (version, value) for _set_value, the record
+    # {| ever; evalue; edialect |} for __init__ / __setstate__.  An exception leaves no object (or the old one) behind.
+    STATE_KEYS = ("self._module", "self._value", "self._dialect")
+
+    def init_fullstate(self, env):
+        self.fullstate = "self.*" in self.ptypes_declared
+        self.tryctx = None
+        if not self.fullstate:
+            return
+        for key in ("self._value", "self._module.version", "self._module.width", "self._module.max_int"):
+            self.attrs.pop(key, None)
+        how = self.name.partition(":")[2].split("_")[0]
+        if self.pyname == "_set_value":
+            if how == "implicit":
+                env["self._module"] = ("none", None)
+            elif how in ("eui48", "eui64") and self.mod.imports.get("_" + how) == "netaddr.strategy." + how:
+                env["self._module"] = ("module", ("src_%s_version" % how, how))
+            else:
+                bad(self.f, "_set_value variant %r" % how)
+            self.result = "pair"
+        else:
+            self.result = "eui"
+
+    def module_of(self, node, env):
+        """the module descriptor an expression denotes at translation time, else None"""
+        if isinstance(node, ast.Name) and node.id in env and env[node.id][0] == "module":
+            return env[node.id][1]
+        if (isinstance(node, ast.Name) and node.id not in env and node.id in ("_eui48", "_eui64")
+                and self.mod.imports.get(node.id) == "netaddr.strategy." + node.id[1:]):
+            return ("src_%s_version" % node.id[1:], node.id[1:])
+        if dotted(node) == "self._module" and self.fullstate and env.get("self._module", ("",))[0] == "module":
+            return env["self._module"][1]
+        if (isinstance(node, ast.Attribute) and node.attr == "_module" and isinstance(node.value, ast.Name)
+                and env.get(node.value.id, ("",))[0] == "eui"):
+            return ("(ever %s)" % env[node.value.id][1], None)
+        return None
+
+    def leaf(self, env, kind, term, wrapped=False):
+        if getattr(self, "fullstate", False) and kind == "none" and env["@break"] is None:
+            m, v, d = [env.get(key, ("none", None)) for key in self.STATE_KEYS]
+            if m[0] != "module" or v[0] != "int" or (self.result == "eui" and d[0] != "edialect"):
+                bad(self.f, "the object state is not completely assigned where the method ends")
+            if self.result == "pair":
+                return ("ret", ("tup", ("int", "int")), "(%s, %s)" % (m[1][0], v[1]), False)
+            return ("ret", "eui", "{| ever := %s; evalue := %s; edialect := %s |}" % (m[1][0], v[1], d[1]), False)
+        return Fn.leaf(self, env, kind, term, wrapped)
+
+    def text(self):
+        t = Fn.text(self)
+        if getattr(self, "fullstate", False):           # no receiver state: the method makes it
+            t = t.replace("Definition %s (%s : Z)" % (self.cname, " ".join(STATE[self.recv])), "Definition %s" % self.cname)
+        return t
+
+    def setter_variant(self, node, env, ty):
+        m = env.get("self._module", ("",))
+        how = "implicit" if m[0] == "none" else m[1][1] if m[0] == "module" and m[1][1] else None
+        if how is None or ty not in ("int", "str"):
+            bad(node, "self.value = <%s> with a module that is not known at translation time" % show(ty))
+        return "_set_value:%s_%s" % (how, ty)
+
+    def state_assign(self, s, tgt, value, env, go):
+        path = dotted(tgt)
+        env = dict(env)
+        if path == "self._module":
+            if isinstance(value, ast.Constant) and value.value is None:
+                env[path] = ("none", None)
+                return go(env)
+            m = self.module_of(value, env)
+            if m is None:
+                bad(s, "self._module = something that is not one of the two strategy modules")
+            env[path] = ("module", m)
+            return go(env)
+        if path == "self._value":
+            if isinstance(value, ast.Constant) and value.value is None:
+                env[path] = ("none", None)
+                return go(env)
+            t = self.int_(value, env)
+            pre = self.take_pre()
+            if not re.fullmatch(r"\w+|\(\w+ \w+\)", t):
+                cn = self.fresh()
+                env[path] = ("int", cn)
+                return self.wrap(pre, ("let", cn, t, go(env)))
+            env[path] = ("int", t)
+            return self.wrap(pre, go(env))
+        if path == "self.value":                         # the property setter: _set_value for the module known here
+            ty, t = self.ex(value, env)
+            name = self.setter_variant(s, env, ty)
+            d = self.tr.get("EUI", name, s)
+            r = self.generated_d(s, d, "", [(ty, t)])
+            pre, h = self.take_pre(), self.fresh()
+            old = env["self._module"]
+            env["self._module"] = ("module", ("(fst %s)" % h, None)) if old[0] == "none" else old
+            env["self._value"] = ("int", "(snd %s)" % h)
+            return self.wrap(pre, ("bind", h, r[2], go(env)))
+        if path == "self.dialect":                       # the property setter: _set_dialect = _validate_dialect
+            r = self.mod.lookup("EUI", "_set_dialect")
+            if not r or dotted(r[1].body[-1].value.func if isinstance(r[1].body[-1], ast.Assign) and isinstance(r[1].body[-1].value, ast.Call) else None) != "self._validate_dialect":
+                bad(s, "_set_dialect is not `self._dialect = self._validate_dialect(value)`")
+            m, v = env.get("self._module", ("",)), env.get("self._value", ("",))
+            if m[0] != "module" or v[0] != "int":
+                bad(s, "self.dialect = .. before the module and the value are assigned")
+            ty, t = self.ex(value, env)
+            ty, t = self.coerce(s, ty, t, "darg")
+            d = self.tr.get("EUI", "_set_dialect", s)
+            r = self.generated_d(s, d, "%s %s" % (m[1][0], v[1]), [(ty, t)])
+            pre, h = self.take_pre(), self.fresh()
+            env["self._dialect"] = ("edialect", h)
+            return self.wrap(pre, ("bind", h, r[2], go(env)))
+        bad(s, "assignment to %s" % path)
+
+    def wrap(self, pre, ir):
+        """Fn.wrap; inside `try: .. except E: pass` a hoisted call that raises E continues with the statements after the try"""
+        ctx = getattr(self, "tryctx", None)
+        for it in reversed(pre):
+            if it[0] == "guard":
+                ir = ("if", it[1], ctx[1]() if ctx and it[2] == ctx[0] else ("raise", it[2]), ir)
+            elif ctx:
+                ir = ("trybind", it[1], it[2], ir, ctx[0], ctx[1]())
+            else:
+                ir = ("bind", it[1], it[2], ir)
+        return ir
+
+    @staticmethod
+    def children(ir):
+        return [ir[3], ir[5]] if ir[0] == "trybind" else Fn.children(ir)
+
+    def effects(self, ir):
+        return ir[0] == "trybind" or Fn.effects(self, ir)
+
+    def outside_try(self, cont):
+        def run(e):
+            saved, self.tryctx = self.tryctx, None
+            try:
+                return cont(e)
+            finally:
+                self.tryctx = saved
+        return run
+
+    def try_pass_state(self, s, rest, env, k, after):
+        """try: body / except E: pass in a full-state method (CPS): a call of the body that raises E jumps to the statements after
+        the try, with the state as it was on entry (no call may follow a state assignment inside the body)"""
+        h = s.handlers[0]
+        seen_assign = False
+        for st in [n for b in s.body for n in ast.walk(b) if isinstance(n, ast.stmt)]:
+            if seen_assign and any(isinstance(n, ast.Call) for n in ast.walk(st)) and not isinstance(st, ast.If):
+                bad(st, "call after a state assignment inside try")
+            if isinstance(st, ast.Assign) and dotted(st.targets[0]) in self.STATE_KEYS:
+                seen_assign = True
+        if s.orelse or s.finalbody or h.name or not isinstance(h.type, ast.Name) or h.type.id not in EXN or h.type.id in env:
+            bad(s, "try statement other than `try: body / except E: pass`")
+        follow = self.outside_try(lambda e: self.block(rest, e, k, after))
+        benv = dict(env)
+        for key in ("@break", "@continue"):
+            if env[key] is not None:
+                benv[key] = self.outside_try(env[key])
+        saved, self.tryctx = self.tryctx, (h.type.id, lambda: follow(env))
+        try:
+            return self.block(s.body, benv, lambda e: follow({**e, "@break": env["@break"], "@continue": env["@continue"]}), rest + after)
+        finally:
+            self.tryctx = saved
+
     # ---- expressions
     def rhs(self, node, env):
+        if isinstance(node, ast.Attribute) and node.attr in ("version", "max_int", "width") and self.module_of(node.value, env):
+            vterm, name = self.module_of(node.value, env)       # an attribute of a strategy module known at translation time
+            if node.attr == "version":
+                return ("int", vterm)
+            if name is None:
+                bad(node, "%s of a module that is only known by its version" % node.attr)
+            return ("int", "src_%s_%s" % (name, node.attr))
         if isinstance(node, ast.Attribute):
             path = dotted(node) or ""
             head, _, tail = path.rpartition(".")
@@ -2318,6 +2572,17 @@ class FnF(Fn):
 
     def call(self, node, env):
         f = node.func
+        if isinstance(f, ast.Attribute) and self.module_of(f.value, env) and self.module_of(f.value, env)[1]:
+            m = self.module_of(f.value, env)[1]
+            d = self.module_fn(m, self.variant_for(BY_FILE.get("netaddr/strategy/%s.py" % m, []), f.attr, node, env), node)   # <module known at translation time>.f(..)
+            return self.generated_d(node, d, "", self.bind_args(node, d, env))
+        if self.builtin_call(node, "int", env, 1):
+            snap, pre0 = self.snapshot(), list(self.pre)
+            ty, t = self.ex(node.args[0], env)
+            if ty == "str":
+                return ("out", "int", "(py_int_o 10 %s)" % t)      # int(text): ValueError
+            self.restore(snap)
+            self.pre = pre0
         if (self.recv == "EUI" and isinstance(f, ast.Attribute) and dotted(f) == "self._module." + f.attr
                 and "self._module" not in env):
             return self.module_call(node, env)
@@ -2366,6 +2631,8 @@ class FnF(Fn):
         if (isinstance(f, ast.Attribute) and f.attr == "findall" and isinstance(f.value, ast.Name) and env.get(f.value.id, ("",))[0] == "pat"
                 and len(node.args) == 1 and not node.keywords):
             ty, t = self.ex(node.args[0], env)              # <compiled pattern>.findall(text): Model/Eui.v match_pat
+            if ty == "int":                                 # findall of something that is no text: TypeError
+                return ("out", "matches", "(Raise TypeError)")
             if ty != "str":
                 bad(node, "findall() of %s" % show(ty))
             return ("matches", "(py_findall %s %s)" % (env[f.value.id][1], t))
@@ -2405,6 +2672,8 @@ class FnF(Fn):
     # ---- statements
     def assign(self, s, env, go):
         tgt = s.targets[0] if isinstance(s, ast.Assign) and len(s.targets) == 1 else None
+        if getattr(self, "fullstate", False) and tgt is not None and dotted(tgt) in self.STATE_KEYS + ("self.value", "self.dialect"):
+            return self.state_assign(s, tgt, s.value, env, go)
         if (isinstance(tgt, ast.Subscript) and isinstance(tgt.value, ast.Name) and is_list(env.get(tgt.value.id, ("",))[0])
                 and not isinstance(tgt.slice, ast.Slice)):
             l = tgt.value.id                                             # l[i] = e on a list (no second name: no aliasing)
@@ -2428,6 +2697,32 @@ class FnF(Fn):
         t, neg = s.test, False
         if isinstance(t, ast.UnaryOp) and isinstance(t.op, ast.Not):
             t, neg = t.operand, True
+        isnone = (isinstance(t, ast.Compare) and len(t.ops) == 1 and isinstance(t.ops[0], (ast.Is, ast.IsNot))
+                  and isinstance(t.comparators[0], ast.Constant) and t.comparators[0].value is None)
+        if isnone and getattr(self, "fullstate", False) and dotted(t.left) == "self._module" and "self._module" in env:
+            # self._module is [not] None: known at translation time
+            yes = ((env["self._module"][0] == "none") == isinstance(t.ops[0], ast.Is)) != neg
+            return self.block((s.body if yes else s.orelse) + rest, env, k, after)
+        conj = t.values if isinstance(t, ast.BoolOp) and isinstance(t.op, ast.And) and not neg else [t]
+        c0 = conj[0]
+        if (isinstance(c0, ast.Compare) and len(c0.ops) == 1 and isinstance(c0.ops[0], (ast.Is, ast.IsNot)) and isinstance(c0.left, ast.Name)
+                and isinstance(c0.comparators[0], ast.Constant) and c0.comparators[0].value is None
+                and env.get(c0.left.id, ("",))[0] == "optint" and (len(conj) == 1 or isinstance(c0.ops[0], ast.IsNot))):
+            # `if x is [not] None [and <more>]` on None-or-int: in the Some arm x is the int
+            x, cn = c0.left.id, self.coqname(s, c0.left.id + "_v")
+            senv = dict(env)
+            senv[x] = ("int", cn)
+            some_yes = isinstance(c0.ops[0], ast.IsNot) != (neg and len(conj) == 1)
+            if len(conj) > 1:
+                more = conj[1] if len(conj) == 2 else ast.copy_location(ast.BoolOp(op=ast.And(), values=conj[1:]), t)
+                inner = ast.copy_location(ast.If(test=more, body=s.body, orelse=s.orelse), s)
+                some_ir = self.block([inner] + rest, senv, k, after)
+            else:
+                some_ir = self.block((s.body if some_yes else s.orelse) + rest, senv, k, after)
+            none_yes = not some_yes if len(conj) == 1 else False
+            nenv = dict(env)
+            nenv[x] = ("none", None)
+            return ("omatch", env[x][1], [("Some", [cn], some_ir), ("None", [], self.block((s.body if none_yes else s.orelse) + rest, nenv, k, after))])
         if (not neg and isinstance(t, ast.Compare) and len(t.ops) == 1 and isinstance(t.ops[0], ast.Is) and isinstance(t.left, ast.Name)
                 and isinstance(t.comparators[0], ast.Constant) and t.comparators[0].value is None
                 and env.get(t.left.id, ("",))[0] in self.OPT):
